@@ -30,7 +30,7 @@ RULE = (
 )
 ASSUMPTIONS = [
     "mistakes that the node constructors own (string 'END' target, emit/wait_for overlap) raise ValueError by documented contract and are not injected",
-    "pairs the documentation does not decide (incoming Any, bare incoming generic vs parameterised required) are skipped",
+    "pairs the documentation does not decide (bare incoming generic vs parameterised required) are skipped; an incoming Any satisfies only a required Any",
 ]
 DECIDING = ["flaws_injected", "type_pairs_checked"]
 THOROUGH_SHARDS = 12
@@ -396,8 +396,11 @@ def R(a, b):
         return True
     if b is typing.Any:
         return True
-    if a is typing.Any:
-        return None
+    if a is typing.Any and not is_union(b):
+        # the documented conditions for compatibility (identical, required Any, union members, generic origin and
+        # arguments, subclassing) are read as exhaustive: a PRODUCER typed Any satisfies none of them for a concrete
+        # consumer type - Any is a wildcard on the required side only
+        return False
     if is_union(a):
         rs = [R(m, b) for m in typing.get_args(a)]
         if any(r is False for r in rs):
@@ -764,6 +767,29 @@ def constructor_argument_forms(ctx):
             pass
         except Exception as e:  # noqa: BLE001
             ctx.violation("C19:raw-exception:" + type(e).__name__, f"edges=[(p, q, {bad!r})]: raised {e!r} instead of a configuration error", case)
+    # (4) two producers that share TWO output names: a data edge between them that carries only contested names
+    # orders nothing (rejected); one that carries an uncontested name does (accepted)
+    for label, n1, n2, ok in (
+        ("consumer-of-one-contested-name", mk("p1", ["a"], ("x", "y")), mk("p2", ["x"], ("x", "y")), False),
+        ("consumer-of-the-other-contested-name", mk("p1", ["a"], ("x", "y")), mk("p2", ["y"], ("x", "y")), False),
+        ("circular-pair", mk("p1", ["y"], ("x", "y")), mk("p2", ["x"], ("x", "y")), False),
+        ("ordered-by-an-uncontested-name", mk("p1", ["a"], ("x", "y", "z")), mk("p2", ["z"], ("x", "y")), True),
+    ):
+        for order in ((n1, n2), (n2, n1)):
+            ctx.obs["flaws_injected" if not ok else "valid_built"] += 1
+            case = {"program": "two producers sharing two output names", "shape": label, "order": [n.name for n in order]}
+            try:
+                Graph(list(order), name="cf4")
+                err = None
+            except GraphConfigError as e:
+                err = e
+            except Exception as e:  # noqa: BLE001
+                ctx.violation("C19:raw-exception:" + type(e).__name__, f"two producers sharing two names ({label}): raised {e!r}", case)
+                continue
+            if ok and err is not None:
+                ctx.violation("C19:valid-rejected", f"two producers sharing two names, ordered by an uncontested value: rejected: {str(err)[:160]}", case)
+            elif not ok and err is None:
+                ctx.violation("C19:accepted:duplicate-producers:edge-of-contested-names-only", f"two unordered producers of x and y ({label}, listed {[n.name for n in order]}) were accepted: the only edge between them carries a contested name", case)
     ctx.case({"directed": "constructor-argument-forms"}, True)
 
 
